@@ -222,24 +222,15 @@ theorem leiden_fit_total {argsort : List Int → List Nat} (hs : ∀ key, IsArgs
 
 -- the contracts are satisfiable (the example kernels of this file meet them) and not vacuous: an idle kernel that
 -- never merges and never raises the flag violates `NoMergeStops`, and the model then runs out of any fuel
-example : NoMergeStops exKernel := by
+example : NoMergeStops (fun _ n => (List.replicate n 0, decide (n ≤ 1))) := by
   intro count n h
-  simp only [exKernel, decide_eq_true_eq]
-  by_contra hn
-  have hlen := unique_length_le ((List.range n).map fun i => (((i + 1) / 2 : Nat) : Int) * 3)
-  -- with n ≥ 4 the labels of nodes 1 and 2 coincide: fewer than n distinct values
-  have h3 : 4 ≤ n := by omega
-  have hnd : (((List.range n).map fun i => (((i + 1) / 2 : Nat) : Int) * 3)).Nodup := by
-    have hp : (unique ((List.range n).map fun i => (((i + 1) / 2 : Nat) : Int) * 3)).Perm
-        ((List.range n).map fun i => (((i + 1) / 2 : Nat) : Int) * 3) := by
-      apply List.Perm.symm
-      apply (List.subperm_of_subset (unique_nodup _) (fun _ hx => mem_unique.mp hx)).perm_of_length_le
-      simp only [exKernel] at h
-      rw [h]; simp
-    exact hp.nodup_iff.mp (unique_nodup _)
-  rw [List.nodup_map_iff_inj_on List.nodup_range] at hnd
-  have := hnd 1 (List.mem_range.mpr (by omega)) 2 (List.mem_range.mpr (by omega)) (by decide)
-  omega
+  have hle : (unique (List.replicate n (0 : Int))).length ≤ 1 :=
+    (List.subperm_of_subset (unique_nodup _) (l₂ := [0]) (fun x hx => by
+      have := mem_unique.mp hx
+      simp at this
+      simp [this.2])).length_le
+  simp only at h ⊢
+  simp; omega
 example : louvainFit argsortStable (fun _ n => ((List.range n).map Int.ofNat, false)) (-1) 50 3 [] true false false 3
     = .ok none := by decide
 
@@ -486,7 +477,94 @@ theorem estimators_refuse (argsort : List Int → List Nat) (kernel : Nat → Na
   have : (nnz == 0) = false := by simp; omega
   simp [louvainEstimator, routeInput, this]
 
-/-- ★★ `Louvain.fit` from the shape of the input (`n_row × n_col`, at least one stored entry, known modularity):
+/-- the same refusals for Leiden, and the refusals of `_pre_processing` computed by the model from the matrix itself
+    (`louvainOnMatrix`): an unknown `modularity`, all stored entries zero, a negative degree (per modularity kind:
+    `potts` never refuses node weights).  KCenters' refusals are in `kcenters_estimator_valid` (its conclusion lists
+    what an accepted input satisfies). -/
+theorem estimators_refuse_more (argsort : List Int → List Nat) (kernel : Nat → Nat → List Int × Bool)
+    (lk : Nat → List Nat → List Int × Bool) (lr : Nat → List Nat → List Int)
+    (nAgg : Int) (fuel nRow nCol : Nat) (fb mk : Bool) (index : List Nat) (so sh : Bool)
+    (a : SpMat) (modularity : String) :
+    leidenEstimator argsort lk lr nAgg fuel nRow nCol 0 fb mk index so sh = .error .valueError ∧
+    (0 < nnzOf a → preProcessingOK a nCol (fb || a.length != nCol) modularity = false →
+      louvainOnMatrix argsort kernel nAgg fuel a nCol fb modularity index so sh = .error .valueError ∧
+      leidenOnMatrix argsort lk lr nAgg fuel a nCol fb modularity index so sh = .error .valueError) := by
+  refine ⟨rfl, ?_⟩
+  intro h hpre
+  have : (nnzOf a == 0) = false := by simp; omega
+  simp [louvainOnMatrix, leidenOnMatrix, louvainEstimator, leidenEstimator, routeInput, this, hpre]
+
+-- the refusals of the node weights, kind by kind (zeros stored; a negative column sum with non-negative row sums)
+example : preProcessingOK [[(1, 0)], [(0, 0)], []] 3 false "newman" = false ∧
+    preProcessingOK [[(1, 0)], [(0, 0)], []] 3 false "potts" = true ∧
+    preProcessingOK [[(1, 2)], [(2, 1)], [(0, -1), (2, 3)]] 3 false "newman" = true ∧
+    preProcessingOK [[(1, 2)], [(2, 1)], [(0, -1), (2, 3)]] 3 false "dugue" = false ∧
+    preProcessingOK [[(1, 2)], [(2, 1)], [(0, -1), (2, 3)]] 3 false "louvain" = false := by decide +kernel
+
+/-- ★ `_pre_processing` accepts every input with non-negative weights and positive total weight, for the three
+    modularity kinds, square or bipartite -/
+theorem pre_processing_accepts_nonneg (a : SpMat) (nCol : Nat) (bipartite : Bool) (kind : ModKind)
+    (hcols : ∀ row ∈ a, ∀ e ∈ row, e.1 < nCol) (hw : ∀ row ∈ a, ∀ e ∈ row, 0 ≤ e.2)
+    (hpos : 0 < totalWeight a) : preWeightsOK a nCol bipartite kind = true :=
+  preWeightsOK_of_nonneg a nCol bipartite kind hcols hw hpos
+
+/-- ★ the transposed matrix used for `probs_col_` (and in the specification of `probs_col_`) holds exactly the
+    columns of the input, stated on the stored entries `triples a` and not on the model's `transposeSp`: for every
+    selection `q` of rows, the selected weights of row `j` of the transposed matrix add up to the weights of the
+    stored entries `(i, j, w)` with `q i`; in particular its row weight is the sum of column `j` -/
+theorem transpose_rows_are_columns (a : SpMat) (nCol : Nat) {j : Nat} (hj : j < nCol) (q : Nat → Bool) :
+    sumR ((((transposeSp a nCol).getD j []).filter fun e => q e.1).map (·.2)) =
+      sumR (((triples a).filter fun t => t.2.1 == j && q t.1).map (·.2.2)) ∧
+    rowWeight ((transposeSp a nCol).getD j []) = classSum (triples a) (fun t => t.2.1) (·.2.2) j :=
+  ⟨transposeSp_row_sum a nCol hj q, rowWeight_transposeSp a nCol hj⟩
+
+/-- ★★ `Louvain.fit` on the input matrix itself, total form: non-negative weights with positive total, a known
+    modularity, the full kernel contract, any sorting `argsort`, any shuffle: the fit is not refused, returns, and the
+    labels are a valid clustering with consistent secondary outputs. -/
+theorem louvain_on_matrix_total {argsort : List Int → List Nat} (hs : ∀ key, IsArgsort key (argsort key))
+    {kernel : Nat → Nat → List Int × Bool} (hk : KernelLen kernel) (hst : NoMergeStops kernel) (nAgg : Int)
+    {a : SpMat} {nCol : Nat} (forceBipartite : Bool) {modularity : String} {kind : ModKind}
+    (hkind : modKind? modularity = some kind)
+    (hr : 0 < a.length) (hcols : ∀ row ∈ a, ∀ e ∈ row, e.1 < nCol) (hw : ∀ row ∈ a, ∀ e ∈ row, 0 ≤ e.2)
+    (hpos : 0 < totalWeight a) (hnnz : 0 < nnzOf a) (hc : 0 < nCol)
+    (sortClusters shuffle : Bool) {index : List Nat}
+    (hidx : shuffle = true → index.Perm
+      (List.range (if (forceBipartite || a.length != nCol) = true then a.length + nCol else a.length)))
+    (rp ra : Bool) :
+    let bip := forceBipartite || a.length != nCol
+    let N := if bip = true then a.length + nCol else a.length
+    ∃ f count s, louvainOnMatrix argsort kernel nAgg N a nCol forceBipartite modularity index sortClusters shuffle
+        = .ok (some (f, count)) ∧
+      ValidClustering N (allLabels f) sortClusters ∧
+      secondary a nCol f bip rp ra = .ok s ∧ SecondaryOK a nCol f bip rp ra s := by
+  intro bip N
+  have hz : (nnzOf a == 0) = false := by simp; omega
+  have hN : 0 < N := by simp only [N]; split <;> omega
+  have hpre : preProcessingOK a nCol bip modularity = true := by
+    simp only [preProcessingOK, hkind]
+    exact preWeightsOK_of_nonneg a nCol bip kind hcols hw hpos
+  have heq : louvainOnMatrix argsort kernel nAgg N a nCol forceBipartite modularity index sortClusters shuffle
+      = louvainFit argsort kernel nAgg N N index sortClusters shuffle bip a.length := by
+    simp only [louvainOnMatrix, louvainEstimator, routeInput, hz]
+    simp [bip, N, hpre]
+  rw [heq]
+  obtain ⟨f, c, h, hv, hsplit⟩ :=
+    louvainFit_total hs hk hst nAgg hN (Nat.le_refl N) sortClusters shuffle bip a.length hidx
+  have hshape : if bip = true then a.length = a.length ∧ N = a.length + nCol ∧ 0 < a.length ∧ 0 < nCol
+      else a.length = N ∧ nCol = N ∧ 0 < N := by
+    cases hb : bip with
+    | true => simp [N, hb, hr, hc]
+    | false =>
+      have hsq : a.length = nCol := by
+        simp only [bip, Bool.or_eq_false_iff] at hb
+        simpa using hb.2
+      simp [N, hb, hr, hsq.symm]
+  obtain ⟨s, hs1, hs2⟩ := secondary_of_valid bip a.length hv hshape hcols hw rp ra
+  rw [← hsplit] at hs1 hs2
+  exact ⟨f, c, s, h, hv, hs1, hs2⟩
+
+/-- ★★ `Louvain.fit` from the shape of the input (`n_row × n_col`, at least one stored entry, `_pre_processing` not
+    refusing — fifth argument `true`, see `louvainOnMatrix` / `pre_processing_accepts_nonneg`):
     the graph is treated as bipartite iff forced or not square; the fit does not raise; `labels_` — together with
     `labels_col_` when bipartite — is a valid clustering of the `n_row` (resp. `n_row + n_col`) nodes; for a bipartite
     graph `labels_ = labels_row_` has one label per row and `labels_col_` one per column. -/
@@ -685,7 +763,7 @@ theorem kcenters_estimator_valid {nClusters nInit maxIter : Int} {directed force
   kcentersEstimator_spec h hch hshape
 
 -- non-vacuity: scores of 3 nodes for 2 centres (a tie on the last row goes to the first maximum), and the refusals
-example : kcentersEstimator 2 1 20 false false 3 3 4 .row (fun _ t c => c.getD (2 * t) 0)
+example : kcentersEstimator 2 1 20 false false 3 3 4 .row (fun _ t c => c.getD t 0)
     (fun _ _ => [[1, 0], [1/4, 3/4], [1/2, 1/2]]) 0 = .ok (⟨[0, 1, 0], none, none, [0, 2], none, none⟩, 1) := by
   decide +kernel
 example : kcentersEstimator 2 1 20 true false 2 3 4 .row (fun _ t c => c.getD t 0) (fun _ _ => []) 0
